@@ -4,7 +4,7 @@
    NF predicates: Model/NF.v; pass models: Model/PassesChain.v (validated by correspondence). *)
 From Coq Require Import List String Bool.
 From Cog Require Import Model.IR Model.Passes Model.PassesChain Model.Process Model.NF Model.Spec06
-     Gen.Chains_gen Proofs.C06Proofs Proofs.ChainNFProofs Proofs.ChainPresProofs.
+     Gen.Chains_gen Proofs.C06Proofs Proofs.ChainNFProofs Proofs.ChainPresProofs Proofs.ChainPhpJavaProofs.
 Import ListNotations.
 Local Open Scope string_scope.
 
@@ -137,6 +137,43 @@ Theorem nf_python_partial : forall ss out,
   tame_python ss = true -> process chain_python ss = Ok out -> nf_violations "python" out = [].
 Proof. exact python_chain_nf. Qed.
 Print Assumptions nf_python_partial.
+(* Java, the whole chain: RemoveIntersections keeps the normal form when no struct field refers to an object it
+   collapses or to an alias of an array (ri_safe, computed on the model's own state before that pass); the failing
+   case is finding C06-java-remove-intersections-fields (third conjunct of nf_java_partial_nonvacuous) *)
+Theorem remove_intersections_preserves_nf : forall ss out,
+  ri_safe ss = true -> remove_intersections ss = Ok out -> nf_violations "java" ss = [] -> nf_violations "java" out = [].
+Proof. exact remove_intersections_keeps_nf. Qed.
+Print Assumptions remove_intersections_preserves_nf.
+Theorem nf_java_partial : forall ss out,
+  tame_java_full ss = true -> process chain_java ss = Ok out -> nf_violations "java" out = [].
+Proof. exact java_chain_nf. Qed.
+Print Assumptions nf_java_partial.
+Theorem nf_java_partial_nonvacuous :
+  (tame_java_full w_tame = true /\ exists out, process chain_java w_tame = Ok out /\ List.length (objects_of out) = 11 /\ nf_violations "java" out = []) /\
+  (tame_java_full w_alias_unreferred = true /\ exists out, process chain_java w_alias_unreferred = Ok out /\
+     map o_name (objects_of out) = ["Alias"; "Obj"; "StringOrInt64"] /\ nf_violations "java" out = []) /\
+  (tame_java w_alias_referred = true /\ tame_java_full w_alias_referred = false /\
+   exists out, process chain_java w_alias_referred = Ok out /\ In "optional-field-not-nullable" (nf_violations "java" out)).
+Proof. exact java_chain_nf_nonvacuous. Qed.
+Print Assumptions nf_java_partial_nonvacuous.
+(* PHP: the chain without InlineObjectsWithTypes, and the whole chain when that pass has nothing left to inline
+   (a sufficient condition; a real inlining drops the nullability of the reference: finding C06-php-inlined-reference,
+   second conjunct of nf_php_partial_nonvacuous) *)
+Theorem nf_php_core_partial : forall ss out,
+  tame_php_core ss = true -> process (removelast chain_php) ss = Ok out -> nf_violations "php" out = [].
+Proof. exact php_chain_core_nf. Qed.
+Print Assumptions nf_php_core_partial.
+Theorem nf_php_partial : forall ss out,
+  tame_php ss = true -> process chain_php ss = Ok out -> nf_violations "php" out = [].
+Proof. exact php_chain_nf. Qed.
+Print Assumptions nf_php_partial.
+Theorem nf_php_partial_nonvacuous :
+  (tame_php w_tame = true /\ nf_violations "php" w_tame = ["anonymous-enum"; "anonymous-struct"; "optional-field-not-nullable"; "T-or-null-union"] /\
+   exists out, process chain_php w_tame = Ok out /\ nf_violations "php" out = []) /\
+  (tame_php_core w_inlined_reference = true /\ tame_php w_inlined_reference = false /\
+   exists out, process chain_php w_inlined_reference = Ok out /\ In "optional-field-not-nullable" (nf_violations "php" out)).
+Proof. exact php_chain_nf_nonvacuous. Qed.
+Print Assumptions nf_php_partial_nonvacuous.
 (* the hypotheses are satisfiable by a schema that exercises every pass, and each conjunct of tame_go is needed *)
 Theorem nf_go_partial_nonvacuous :
   tame_go w_tame = true /\
